@@ -207,7 +207,7 @@ def substitute(t, mapping):
 
 def fold_minmax(t):
     """Fold max/min/abs over constant arguments (used after substituting a counter value)."""
-    if not isinstance(t, tuple):
+    if not isinstance(t, tuple) or not t:
         return t
     t = tuple(fold_minmax(x) if isinstance(x, tuple) else x for x in t)
     if t[0] == "fn" and t[1] in ("max", "min") and len(t[2]) >= 2:
@@ -451,3 +451,20 @@ def func_qual(summary):
 def line_key(run, summary_or_path, line):
     path = summary_or_path if isinstance(summary_or_path, str) else summary_or_path.path
     return run.stmt_text(path, line)
+
+
+def zero_test(g, totals):
+    """Branch literal equivalent to `T == 0` for a T in totals (any spelling: ==, not !=, `not T`)."""
+    n = normalise_not(g)
+    if n[0] == "cmp" and n[1] == "==":
+        return (n[2] in totals and const_value(n[3]) == 0) or (n[3] in totals and const_value(n[2]) == 0)
+    if n[0] == "not" and n[1] in totals:
+        return True
+    return False
+
+
+def nonzero_test(g, totals):
+    n = normalise_not(g)
+    if n[0] == "cmp" and n[1] == "!=":
+        return (n[2] in totals and const_value(n[3]) == 0) or (n[3] in totals and const_value(n[2]) == 0)
+    return n in totals
